@@ -10,6 +10,7 @@ import (
 
 	"github.com/youchainhq/go-youchain/common"
 	"github.com/youchainhq/go-youchain/core"
+	"github.com/youchainhq/go-youchain/core/state"
 	"github.com/youchainhq/go-youchain/staking"
 )
 
@@ -47,4 +48,19 @@ func ForgeDoubleSign(chain *core.BlockChain, keys env.Keyring, k int, main commo
 func PostEvidence(n *env.Node, ev staking.Evidence) {
 	n.Mux.Post(ev)
 	n.Mux.Post(core.InsertBlockEvent{})
+}
+
+// RandomEvidenceTargets occasionally accuses a non-anchor validator whose 2 % penalty is positive.
+func RandomEvidenceTargets(r *Run, st *state.StateDB, n uint64) []common.Address {
+	if n < 20 || r.R.Intn(24) != 0 {
+		return nil
+	}
+	v := r.W.pickVal(st, func(v *state.Validator) bool {
+		pen := new(big.Int).Mul(v.Token, big.NewInt(2))
+		return !r.W.isAnchor(v) && r.W.ValIndex(v.MainAddress()) >= 0 && pen.Cmp(big.NewInt(100)) >= 0
+	})
+	if v == nil {
+		return nil
+	}
+	return []common.Address{v.MainAddress()}
 }
